@@ -81,7 +81,8 @@ PLANS = {
              "recorded inputs: all 256 bytes at length 1, length 2 grids, positional sweeps, lengths 0..40(90), long random strings"),
     "C04": dict(
         mc=[mc("MC_Layouts", "MC_Layouts.cfg")],
-        families=[fam("fieldwalk", F.fam_fieldwalk), fam("randmsg", F.fam_random_messages), fam("corpus", F.fam_corpus)],
+        families=[fam("fieldwalk", F.fam_fieldwalk), fam("randmsg", F.fam_random_messages, builds=ALL3), fam("corpus", F.fam_corpus)],
+        builds=ALL3,
         rule="cumulative code-order widths = ITU offsets for every field of every type (TLC); recorded: every field of every "
              "layout branch walked over its values on three backgrounds + random joint assignments"),
     "C05": dict(
@@ -162,7 +163,7 @@ PLANS = {
                         mc("MC_Armor", "NC_Armor_emptyfill.cfg", expect="ArmorInv"),
                         mc("MC_Layouts", "MC_Layouts.cfg")],
         builds=ALL3,
-        families=[fam("totality", F.fam_totality), fam("capacity", F.fam_capacity),
+        families=[fam("totality", F.fam_totality), fam("capacity", F.fam_capacity), fam("textsmall", F.fam_text_small),
                   fam("text", F.fam_text, builds=("none",), tier="thorough")],
         custom=[dict(run=walk_std), dict(run=walk_none)],
         rule="NoFault over all histories of the bounded parser model, UnarmorAlg fault-free on the bounded domain, every take of "
